@@ -66,38 +66,47 @@ def _vals(kind, n, s, ref):
     return "q{" + ref + "}"
 
 
-@harness("C09", lemma="tokens", cubes={"t0": list(range(len(TOKENS))), "t1": list(range(len(TOKENS)))},
-         pre=["0 <= t2 < %d" % len(TOKENS), "0 <= ka <= 5", "0 <= kx <= 5", "0 <= kb <= 3", "len(sa) <= 1", "len(sx) <= 1", "len(sb) <= 1",
-              "-9 <= n <= 99"],
-         example=dict(t0=1, t1=4, t2=2, pa=True, ka=4, px=True, kx=0, pl=True, pb=True, kb=1, n=7, sa="u", sx="v", sb="w", pp=True),
-         timeout=600,
-         bounds="template text = 3 tokens out of " + repr(TOKENS) + " (512 texts); option values: string (any unicode, len <= 1), int "
-                "in -9..99, True, None, a templated reference or templated text pointing at B (reference depth up to 3: text -> A -> B "
-                "-> value); every key present or absent; parameter p is Option('PV') present or absent",
+@harness("C09", lemma="tokens", cubes={"t0": list(range(len(TOKENS))), "t1": list(range(len(TOKENS))), "t2": [0, 1, 4, 5]},
+         pre=["0 <= ka <= 2", "0 <= kx <= 2", "len(sa) <= 1", "len(sb) <= 1", "-9 <= n <= 99"],
+         example=dict(t0=1, t1=4, t2=1, pa=True, ka=2, px=True, kx=1, pb=True, n=7, sa="u", sb="w", pp=True), timeout=300,
+         bounds="template text = 3 tokens out of " + repr(TOKENS) + " (third token from 4 of them: 256 texts); only the options a text "
+                "(transitively) mentions are made symbolic: A = string (any unicode, len <= 1) / templated reference '{B}' / absent; S.X "
+                "= int in -9..99 / templated text 'q{B}' / absent; B = string or absent; L.0 = 'l0'; parameter p = Option('PV') present "
+                "or absent (reference depth text -> A -> B)",
          what="Template(text, p=...)(o) equals the reference substitution (str() of every referenced option, resolved transitively, "
               "escapes made literal); a missing referenced key (at any depth) fails with a missing-key error; keys(o) and explain(o) "
               "contain every key the substitution reads")
-def tokens(t0: int, t1: int, t2: int, pa: bool, ka: int, px: bool, kx: int, pl: bool, pb: bool, kb: int, n: int,
-           sa: str, sx: str, sb: str, pp: bool) -> int:
-    if not (plain(sa) and plain(sx) and plain(sb)):
-        return 1
-    text = TOKENS[t0] + TOKENS[t1]
-    for i in range(len(TOKENS)):
-        if t2 == i:
-            text = text + TOKENS[i]
+def tokens(t0: int, t1: int, t2: int, pa: bool, ka: int, px: bool, kx: int, pb: bool, n: int, sa: str, sb: str, pp: bool) -> int:
+    text = TOKENS[t0] + TOKENS[t1] + TOKENS[t2]
     pairs = []
-    if pa:
-        pairs.append(("A", _vals(ka, n, sa, "B")))
-    if px:
-        pairs.append(("S.X", _vals(kx, n + 1, sx, "B")))
-    if pb:
-        pairs.append(("B", _vals(kb, n + 2, sb, "B")))
+    needs_b = False
+    if "{A}" in text and pa:
+        if ka == 0:
+            if not plain(sa):
+                return 1
+            pairs.append(("A", sa))
+        elif ka == 1:
+            pairs.append(("A", "{B}"))
+            needs_b = True
+        else:
+            pairs.append(("A", None))
+    if "{S.X}" in text and px:
+        if kx == 0:
+            pairs.append(("S.X", n))
+        elif kx == 1:
+            pairs.append(("S.X", "q{B}"))
+            needs_b = True
+        else:
+            pairs.append(("S.X", True))
+    if needs_b and pb:
+        if not plain(sb):
+            return 1
+        pairs.append(("B", sb))
     o = nest(pairs)
-    if pl:
-        o["L"] = ["{B}" if ka == 5 else "l0", "l1"]
-    if pp:
-        o["PV"] = sb
+    o["L"] = ["l0", "l1"]
     uses_p = "{:p:}" in text
+    if uses_p and pp:
+        o["PV"] = "pv"
     with untraced():
         t = Template(text, p=Option("PV")) if uses_p else Template(text)
     with quiet():
@@ -110,7 +119,7 @@ def tokens(t0: int, t1: int, t2: int, pa: bool, ka: int, px: bool, kx: int, pl: 
     fail = None
     if uses_p:
         if pp:
-            o_ref[":p:"] = sb
+            o_ref[":p:"] = "pv"
         else:
             fail = "PV"
     exp = ref_outcome(lambda: str(ref_resolve(text, o_ref, reads)))
@@ -129,11 +138,10 @@ def tokens(t0: int, t1: int, t2: int, pa: bool, ka: int, px: bool, kx: int, pl: 
             return 0
         if ex[0] != "ok" or not want <= ex[1]:
             return 0
-        # every read key is below a reported one; reported keys are present
         for k in keys[1]:
             if not ref_exists(o, k):
                 return 0
-        return 2
+        return 2 if want else 1
     if got[0] != "missing":
         return 0
     if keys[0] == "ok":
